@@ -99,7 +99,9 @@ func tryReplay(prop string, o *Obl, r *FuncReport, repo, verif string) (string, 
 	}
 	cmd := exec.CommandContext(ctx, "go", args...)
 	cmd.Dir = pkgDir
-	cmd.Env = append(os.Environ(), "GOFLAGS=-mod=mod", "GOPROXY=off", "GOSUMDB=off", "GOTOOLCHAIN=local")
+	logDir := filepath.Join(dir, "logs") // the library's log files go into this run's own directory
+	os.MkdirAll(logDir, 0o755)
+	cmd.Env = append(os.Environ(), "GOFLAGS=-mod=mod", "GOPROXY=off", "GOSUMDB=off", "GOTOOLCHAIN=local", "SENTINEL_LOG_DIR="+logDir)
 	out, _ := cmd.CombinedOutput()
 	fmt.Fprintf(&b, "\ngo test -overlay (real %s, template %s):\n%s\n", r.PkgDir, r.Replay, truncate(string(out), 6000))
 	fmt.Fprintf(&b, "\n--- replay test source ---\n%s\n", src.String())
